@@ -10,9 +10,12 @@ git -C /repo apply "$d/patch.diff" || { echo "patch does not apply"; exit 2; }
 cd /verif
 : > "$d/check_result.txt.new"
 for p in $props; do
+  cp evidence/$p.json /verif/.cache/evidence-$p.keep 2>/dev/null
   ./check $p ${TIER:+--tier $TIER} 2>/dev/null | grep -E "^(VIOLATION|KNOWN|C[0-9]+ tier)" | cut -c1-220 | tee -a "$d/check_result.txt.new"
   r=$(grep -o 'replay=[^ ]*' "$d/check_result.txt.new" | tail -1 | cut -d= -f2)
   if [ -n "$r" ] && [ -f "$r" ]; then grep -v '^#' "$r" | head -3 | cut -c1-600 > "$d/first_failing_cases.txt"; fi
+  # the evidence files describe the unchanged tree: put the previous one back
+  [ -f /verif/.cache/evidence-$p.keep ] && mv /verif/.cache/evidence-$p.keep evidence/$p.json
 done
 mv "$d/check_result.txt.new" "$d/check_result.txt"
 git -C /repo checkout -- .
